@@ -110,6 +110,13 @@ def gen(rng, tier):
                 for ops in ([["remove", p_]], [["move", p_, "/z"]], [["copy", p_, "/z"]], [["replace", p_, 9]], [["test", p_, "a"]], [["add", p_, 9]],
                             [["move", "/a", p_]], [["test", "/a", 1], ["remove", p_]]):
                     yield {"kind": "patch", "mode": True, "ops": ops, "doc": doc}
+    # member names made of every control character, reached by name, wildcard, descent and filter (each match's normalized path
+    # and the query's string form are built from them)
+    cdoc = {"x\x1fy": 1, "\x00": 2, "\x1f": [3], "a\x7f": 4, "\x1e": {"\x1f": 5, "\x01\x02": 6}, "\u0080\u009f": 7, "\t\n\r": 8}
+    for q in ("$.*", "$..*", "$[?@ > 0]", "$['x\\u001fy']", "$..['\\u001f']", "$['\\u0000', '\\u001e']", "$['\\u001e'].*", "$..[?@ == 5]", "$['a\\u007f']",
+              "$['\\u0080\\u009f']", "$['\\t\\n\\r']", "$[?@['\\u001f']]"):
+        for doc in (cdoc, [cdoc], {"k": cdoc}):
+            yield {"kind": "compile", "text": q, "doc": doc, "ctx": {}}
     # corner slices (zero step, steps and bounds of either sign beyond the array) through every evaluation route
     for q in ("$[::0]", "$.a[1:3:0]", "$..[::0]", "$.a[0, ::0, 2]", "$[?@[::0]]", "$[?!@[::0]]", "$..[5:-9:-3]", "$.a[-9:9:4]", "$[?count(@[::0]) == 0]",
               "$[::-0]", "$.a[::9007199254740991]"):
